@@ -364,7 +364,8 @@ func methodCallsOn(fd *ast.FuncDecl, recv string) []string {
 // `except` (implementations of the net.Conn interface itself) are not listed.
 func limitCalls(p *pkg, except map[string]bool) []string {
 	names := map[string]bool{"SetDeadline": true, "SetReadDeadline": true, "SetWriteDeadline": true, "SetLinger": true, "SetReadLimit": true,
-		"MaxBytesReader": true, "WithTimeout": true, "WithDeadline": true, "SetKeepAlive": true, "SetKeepAlivePeriod": true, "LimitReader": true}
+		"MaxBytesReader": true, "WithTimeout": true, "WithDeadline": true, "SetKeepAlive": true, "SetKeepAlivePeriod": true, "LimitReader": true,
+		"TimeoutHandler": true, "MaxBytesHandler": true, "AfterFunc": true}
 	fns := p.allFuncs()
 	var keys []string
 	for k := range fns {
@@ -667,6 +668,31 @@ func packageVars(p *pkg) []string {
 		}
 	}
 	sort.Strings(out)
+	return out
+}
+
+// updatesOf lists, in source order, the statements of fd that change the variable name: "name++", "name--", "name = <expr>",
+// "name += <expr>" (declarations with := included).
+func updatesOf(fd *ast.FuncDecl, name string) []string {
+	var out []string
+	if fd == nil {
+		return nil
+	}
+	ast.Inspect(fd.Body, func(n ast.Node) bool {
+		switch x := n.(type) {
+		case *ast.IncDecStmt:
+			if id, ok := x.X.(*ast.Ident); ok && id.Name == name {
+				out = append(out, name+x.Tok.String())
+			}
+		case *ast.AssignStmt:
+			for i, l := range x.Lhs {
+				if id, ok := l.(*ast.Ident); ok && id.Name == name && i < len(x.Rhs) {
+					out = append(out, name+" "+x.Tok.String()+" "+types.ExprString(x.Rhs[i]))
+				}
+			}
+		}
+		return true
+	})
 	return out
 }
 
@@ -1104,6 +1130,8 @@ func main() {
 		e.strs("forwardRequestConds", ifConds(a.funcDecl("forwardRequest")), a.funcDecl("forwardRequest") != nil,
 			[]string{"*debug", "*forwardUserID", "*stripCredentials", "err != nil", "*debug", "responseForwarder.Close(); err != nil"},
 			"agent forwardRequest: the conditions of its if statements, in order (the identity header is set whenever --forward-user-id is on and the credentials are removed whenever --strip-credentials is on: no further condition on the request)")
+		e.strs("retryCountUpdates", updatesOf(a.funcDecl("pollForNewRequests"), "retryCount"), a.funcDecl("pollForNewRequests") != nil, []string{"retryCount++", "retryCount = 0"},
+			"agent pollForNewRequests: every statement that changes the consecutive-failure counter (declared with its zero value, plus one per failed poll, back to 0 on a successful one: the counter of the loop model)")
 		e.strs("parseRequestIDsConds", ifConds(u.funcDecl("parseRequestIDs")), u.funcDecl("parseRequestIDs") != nil,
 			[]string{"err != nil", "response.StatusCode != http.StatusOK", "len(responseBytes) <= 0", "json.Unmarshal(responseBytes, &requests); err != nil"},
 			"agent/utils parseRequestIDs: the conditions of its if statements, in order (a pending-list answer is a success only with status 200 and a body that is empty or a JSON list; everything else is a failed poll, which the loop answers with the back-off)")
